@@ -68,6 +68,13 @@ Proof.
   unfold t_view_at, view_at in H. rewrite H in Hs. exact Hs.
 Qed.
 
+(** the literal value of [prefix()]: for a virtual position it is [q] as passed (host bits
+    included — "network form" holds up to host bits, i.e. as keys, see [C11_view_at_some]); for a
+    real node it is the prefix stored in that node *)
+Theorem C11_view_at_prefix_literal (T : tree pfx V) (q p : pfx) (c : tree pfx V) :
+  t_view_at w fl V T q = Some (VVirt p c) -> t_v_prefix V (VVirt p c) = q.
+Proof. intros H. exact (v_find_virt_prefix pfx V _ _ _ _ (view_of T) q p c H). Qed.
+
 (** its [value()] is the value stored exactly at [q] ([None] if [q] is not stored) — equivalently,
     what [get q] returns *)
 Theorem C11_view_at_value (T : tree pfx V) (q : pfx) (v : view) :
@@ -352,3 +359,87 @@ Proof.
 Qed.
 
 End C11.
+
+(** non-vacuity, [w = 8], the map {1/1 -> 1, 10/2 -> 2, 11/2 -> 3, 101/3 -> 4, 11010/5 -> 5}:
+    - [view_at 110/3] (query given with host bits, [0xc7]) is a VIRTUAL view on the edge
+      11/2 -> 11010/5: prefix as passed, no value, entries {11010/5};
+    - [view_at 1/1] is a real view holding all five entries, in order, with value 1;
+    - [view_at 0/1] does not exist; [view_at 0/0] is the whole-map view;
+    - [view_mut_at 110/3] is the same location (path right-right-left, virtual);
+    - the virtual view has no left side, its right side is the real node 11010/5; [split],
+      [has_left], [has_right] of the mutable twin agree;
+    - the sides of the view at 1/1 are {10/2, 101/3} and {11/2, 11010/5}. *)
+Example C11_example :
+  let ins := fun m p x => fst (t_insert 8 Generic nat m p x) in
+  let M := ins (ins (ins (ins (ins (t_empty nat) (mkpfx 0x80 1) 1%nat) (mkpfx 0x80 2) 2%nat)
+                 (mkpfx 0xc0 2) 3%nat) (mkpfx 0xa0 3) 4%nat) (mkpfx 0xd0 5) 5%nat in
+  let T := root M in
+  let info := option_map (fun v : view pfx nat =>
+                (v_is_virtual v, t_v_prefix nat v, v_value v, map (Lookup2.drop_id pfx nat) (v_iter v))) in
+  let at_ := t_view_at 8 Generic nat T in
+  info (at_ (mkpfx 0xc7 3)) = Some (true, mkpfx 0xc7 3, None, [(mkpfx 0xd0 5, 5%nat)]) /\
+  info (at_ (mkpfx 0x80 1)) =
+    Some (false, mkpfx 0x80 1, Some 1%nat,
+          [(mkpfx 0x80 1, 1%nat); (mkpfx 0x80 2, 2%nat); (mkpfx 0xa0 3, 4%nat); (mkpfx 0xc0 2, 3%nat); (mkpfx 0xd0 5, 5%nat)]) /\
+  at_ (mkpfx 0x00 1) = None /\
+  at_ (mkpfx 0x00 0) = Some (view_of T) /\
+  view_mut_at 8 Generic nat T (mkpfx 0xc7 3) = Some (mkvmut pfx [true; true; false] (Some (mkpfx 0xc7 3))) /\
+  (match at_ (mkpfx 0xc7 3) with
+   | Some v => info (t_v_left 8 nat v) = None /\
+               info (t_v_right 8 nat v) = Some (false, mkpfx 0xd0 5, Some 5%nat, [(mkpfx 0xd0 5, 5%nat)])
+   | None => False
+   end) /\
+  (let m := mkvmut pfx [true; true; false] (Some (mkpfx 0xc7 3)) in
+   t_vm_split 8 nat T m = (None, Some (mkvmut pfx [true; true; false] None)) /\
+   t_vm_has_left 8 nat T m = false /\ t_vm_has_right 8 nat T m = true) /\
+  (match at_ (mkpfx 0x80 1) with
+   | Some v => info (t_v_left 8 nat v) = Some (false, mkpfx 0x80 2, Some 2%nat, [(mkpfx 0x80 2, 2%nat); (mkpfx 0xa0 3, 4%nat)]) /\
+               info (t_v_right 8 nat v) = Some (false, mkpfx 0xc0 2, Some 3%nat, [(mkpfx 0xc0 2, 3%nat); (mkpfx 0xd0 5, 5%nat)])
+   | None => False
+   end).
+Proof. vm_compute. repeat split; reflexivity. Qed.
+
+(** the restriction of (c) to the canonical alphabet is necessary: after [remove_keep_tree] the
+    value-less leaf 101/3 is still a node, so [view_at 101/3] exists although it holds no entry
+    (parts (a) and (b) still hold for it) *)
+Example C11_noncanonical_example :
+  let ins := fun m p x => fst (t_insert 8 Generic nat m p x) in
+  let M := ins (ins (t_empty nat) (mkpfx 0x80 1) 1%nat) (mkpfx 0xa0 3) 4%nat in
+  let T := root (fst (t_remove_keep_tree 8 Generic nat M (mkpfx 0xa0 3))) in
+  option_map (fun v : view pfx nat => (v_is_virtual v, v_value v, v_iter v)) (t_view_at 8 Generic nat T (mkpfx 0xa0 3))
+  = Some (false, None, []) /\
+  entries T = [(mkpfx 0x80 1, 1%nat)].
+Proof. vm_compute. split; reflexivity. Qed.
+
+Print Assumptions C11_whole_map_view.
+Print Assumptions C11_view_at_none.
+Print Assumptions C11_view_at_some.
+Print Assumptions C11_view_at_prefix_literal.
+Print Assumptions C11_view_at_value.
+Print Assumptions C11_view_at_iter.
+Print Assumptions C11_view_at_none_filter.
+Print Assumptions C11_under_spec.
+Print Assumptions C11_view_mut_at_sim.
+Print Assumptions C11_mut_accessors.
+Print Assumptions C11_view_mut_at_none.
+Print Assumptions C11_view_mut_at_some.
+Print Assumptions C11_side.
+Print Assumptions C11_side_filter.
+Print Assumptions C11_decomposition.
+Print Assumptions C11_own_entry.
+Print Assumptions C11_entries_split.
+Print Assumptions C11_parts_disjoint.
+Print Assumptions C11_mut_sides_sim.
+Print Assumptions C11_split.
+Print Assumptions C11_has_left.
+Print Assumptions C11_has_right.
+Print Assumptions C11_mut_side.
+Print Assumptions C11_reachable_views.
+Print Assumptions C11_reachable_state_views.
+Print Assumptions C11_canon_root.
+Print Assumptions C11_canon_view_at.
+Print Assumptions C11_whole_map_view_exists.
+Print Assumptions C11_canon_side.
+Print Assumptions C11_canon_find.
+Print Assumptions C11_canon_nonempty.
+Print Assumptions C11_canon_mut_side.
